@@ -7,7 +7,7 @@ instantiation rule).  For every program and query:
       must be the same type as the query;
   (3) the prototype interrogate records in the database for  `query r();`  likewise.
 """
-import os, re, subprocess, random
+import os, re, subprocess, random, json
 from ..common import MachineryError
 from .. import build, tlc, run, idb
 
@@ -35,23 +35,33 @@ def gxx_bad_lines(work, fn):
     return set(int(x) for x in ERRLINE.findall(r.stderr)), r.stderr
 
 
-def rt(t, n, pn=None, body=False, top=True):
+BASE_NAMES = {"K1": "ns1::K", "K2": "ns2::K"}       # two classes with the same simple name
+# non-template classes with a member typedef t and aliases of them (once per header)
+PRELUDE = ["namespace ns1 { struct K { typedef int t; }; } namespace ns2 { struct K { typedef char t; }; }",
+           "typedef ns1::K KA; using KB = KA; typedef const ns2::K CK;"]
+CLASS_MEMBER = {"K1": ["b", "int"], "K2": ["b", "char"]}
+NAME_ALIAS = {"KA": ["b", "K1"], "KB": ["b", "KA"], "CK": ["c", ["b", "K2"]]}
+
+
+def rt(t, n, pn=None, body=False, top=True, selfname=None):
     """C++ text of a term; n = case number (template names are P<n>, Q<n>, R<n>)."""
     k = t[0]
     if k == "b":
-        return t[1]
+        return BASE_NAMES.get(t[1], t[1])
+    if k == "self":
+        return selfname
     if k == "p":
         return pn[t[1] - 1]
     if k == "ptr":
-        return rt(t[1], n, pn, body) + " *"
+        return rt(t[1], n, pn, body, selfname=selfname) + " *"
     if k == "ref":
-        return rt(t[1], n, pn, body) + " &"
+        return rt(t[1], n, pn, body, selfname=selfname) + " &"
     if k == "c":
-        return rt(t[1], n, pn, body) + " const"
+        return rt(t[1], n, pn, body, selfname=selfname) + " const"
     if k == "t":
-        return "%s%d< %s >" % (t[1], n, ", ".join(rt(a, n, pn, body) for a in t[2]))
+        return "%s%d< %s >" % (t[1], n, ", ".join(rt(a, n, pn, body, selfname=selfname) for a in t[2]))
     if k == "m":
-        inner = rt(t[1], n, pn, body, top=False)
+        inner = rt(t[1], n, pn, body, top=False, selfname=selfname)
         s = inner + "::" + t[2]
         if body and top:
             s = "typename " + s
@@ -105,7 +115,8 @@ def render_prog(n, prog, force_fwd=False):
         out.append((heads["P"] % (d, n)) + ";")
     for T in "PQR":
         h = heads[T] % ((("" if need_fwd else d), n) if T == "P" else n)
-        body = " ".join("typedef %s %s;" % (rt(defs[T][s], n, PN[T], True), s) for s in ("m1", "m2") if defs[T][s][0] != "none")
+        body = " ".join("typedef %s %s;" % (rt(defs[T][s], n, PN[T], True, selfname="%s%d" % (T, n)), s)
+                        for s in ("m1", "m2") if defs[T][s][0] != "none")
         out.append("%s { %s };" % (h, body))
     if alias[0] != "none":
         out.append("template<class %s> using V%d = %s;" % (PN["V"][0], n, rt(alias, n, PN["V"], True)))
@@ -207,6 +218,8 @@ def feats(prog, q):
 
 
 def templ_inst(ctx, work):
+    cap_p, cap_q = (1500, 12) if ctx.tier == "quick" else (25000, 30)
+    rng = random.Random(6)
     cfgs = [("TemplInst_quick", None)] if ctx.tier == "quick" else [("TemplInst_thorough", None), ("TemplInst_sim", 30000)]
     progs = {}
     for cfg, sim in cfgs:
@@ -215,20 +228,32 @@ def templ_inst(ctx, work):
                       simulate=sim, depth=10 if sim else None, coverage=not sim)
         ctx.add_tlc(res)
         tlc.must_ok(res)
-        for r in tlc.read_dump(dump):
-            key = repr((r["dflt"], sorted(r["defs"].items()), r["alias"]))
-            p = progs.setdefault(key, ((r["dflt"], r["defs"], r["alias"]), {}))
-            p[1][repr(r["q"])] = (r["q"], r["r"])
-    for k in progs:
-        progs[k] = (progs[k][0], list(progs[k][1].values()))
+        # the dump is large: keep, per program, its text form and a bounded reservoir of queries
+        for r in tlc.iter_dump(dump):
+            key = json.dumps([r["dflt"], sorted(r["defs"].items()), r["alias"]])
+            p = progs.get(key)
+            if p is None:
+                p = progs[key] = [0, {}]
+            p[0] += 1
+            qk = json.dumps(r["q"])
+            if len(p[1]) < 4 * cap_q:
+                p[1][qk] = json.dumps(r["r"])
+            elif qk not in p[1] and rng.random() < 4.0 * cap_q / p[0]:
+                p[1].pop(rng.choice(sorted(p[1])))
+                p[1][qk] = json.dumps(r["r"])
+    n_programs_total = len(progs)
+    keys = sorted(progs)
+    if len(keys) > cap_p:
+        keys = rng.sample(keys, cap_p)
+        ctx.notes["templ_sampled_programs"] = "%d of %d" % (cap_p, n_programs_total)
+    sel = {}
+    for k in keys:
+        d, df, al = json.loads(k)
+        sel[k] = ((d, dict(df), al), [(json.loads(q), json.loads(r)) for q, r in sorted(progs[k][1].items())])
+    progs = sel
     plist = [progs[k] for k in sorted(progs)]
     for p in plist:
         p[1].sort(key=repr)
-    cap_p, cap_q = (1500, 12) if ctx.tier == "quick" else (25000, 30)
-    rng = random.Random(6)
-    if len(plist) > cap_p:
-        plist = rng.sample(plist, cap_p)
-        ctx.notes["templ_sampled_programs"] = cap_p
     cases = []                       # (n, prog, [(q, r)])
     for n, (prog, qs) in enumerate(plist):
         if len(qs) > cap_q:
@@ -240,7 +265,7 @@ def templ_inst(ctx, work):
     def one(arg):
         bi, batch = arg
         hdr = "ti%03d.h" % bi
-        src = []
+        src = list(PRELUDE)
         for n, prog, qs in batch:
             src += render_prog(n, prog, force_fwd=(n % 3 == 0))
         open(os.path.join(work, hdr), "w").write("\n".join(src) + "\n")
@@ -261,7 +286,7 @@ def templ_inst(ctx, work):
         def ask(group):
             cnt[0] += 1
             fn = "ti%03d_g%04d.h" % (bi, cnt[0])
-            src2 = []
+            src2 = list(PRELUDE)
             for n, prog, qs in group:
                 src2 += render_prog(n, prog, force_fwd=(n % 3 == 0))
             open(os.path.join(work, fn), "w").write("\n".join(src2) + "\n")
@@ -413,12 +438,14 @@ def expansions(prog, q):
             return ["m", subst(t[1], T, args), t[2]]
         if k == "own":
             return subst(defs[T][t[1]], T, args)
+        if k == "self":
+            return ["t", T, args]
         raise MachineryError("term %r" % (t,))
 
     def norm(t):
         k = t[0]
         if k == "b":
-            return t
+            return norm(NAME_ALIAS[t[1]]) if t[1] in NAME_ALIAS else t
         if k in ("ptr", "ref", "c"):
             n = norm(t[1])
             if k == "ref" and n[0] == "ref":
@@ -436,6 +463,10 @@ def expansions(prog, q):
             return ["t", t[1], a]
         if k == "m":
             n = norm(t[1])
+            if n[0] == "c":
+                n = n[1]
+            if n[0] == "b":
+                return CLASS_MEMBER[n[1]]
             order.append((n[1], t[2]))
             return norm(subst(defs[n[1]][t[2]], n[1], n[2]))
         raise MachineryError("term %r" % (t,))
